@@ -368,6 +368,10 @@ func (r *Resolver) Resolve(ctx context.Context, name string) (ResolveResult, err
 			return result, ErrInvalidName
 		}
 	}
+	if n := strings.TrimSuffix(svcbName, "."); n != "" && n != name && (strings.HasPrefix(n, ".") || strings.HasSuffix(n, ".") || strings.Contains(n, "..")) {
+		// an empty label in the scheme, or a prefix in front of the root name
+		return result, ErrInvalidName
+	}
 
 	// First, resolve HTTPS Aliases.
 	want := svcbName
